@@ -1,4 +1,5 @@
 import IprProofs.Graph
+import IprProps.C02Table
 import Generated.Wiring
 /-!
 # C09 — every node has the type its kind prescribes; sequence types track their members
@@ -232,6 +233,54 @@ theorem C09_given (T : Table) (r : Row) (hf : T.find? r.key = some r) (i : Nat) 
     (fuel : Nat) (s : State) (args : List Val) : typeOfMade T fuel s r args = args.getD i .error := by
   have := make_readback T fuel s r.key args r hf "type" (.arg i) (by rw [src_type, ht])
   simpa [typeOfMade, interp] using this
+
+/-! ## Operand forms and builder calls: the type does not depend on how an operand was built, nor on later client actions -/
+
+/-- The prescription is met by a base row of the documented table exactly when it is met by each of its operand forms
+    (`#nested`, `#resolved-operand`, `#reserved-spelling`, `#list-filled-later`): they have the same type column, accessors and sorts. -/
+theorem C09_operand_forms_conform (r f : Row) (hf : f ∈ Spec.operandForms r) (hw : "word_view" ∉ r.sorts) (t : TypeRule) :
+    conforms f t = conforms r t := by
+  obtain ⟨_, _, _, hs, ht, ha⟩ := Spec.operandForms_same r f hf hw
+  cases t <;> simp [conforms, Row.src?, hs, ht, ha]
+
+/-- A reserved spelling (`nullptr`, `true`, `int` …), however it is passed, leaves the type column alone: a literal spelled
+    `nullptr` and given the type `int*` has the type `int*`. -/
+theorem C09_reserved_spelling_keeps_type (r : Row) : (Spec.reservedForm r).typ = r.typ := by
+  unfold Spec.reservedForm
+  split <;> rfl
+
+/-- **The type is independent of the operand form.**  For every table holding an operand-form row `f` of a base row `r`, every store
+    and every operand vector -- a rewrite whose target is itself a rewrite, a qualified name whose member is an id-expression with a
+    resolution, a call whose argument list is still empty -- `type()` of the node made through `f` is what the type column of the
+    BASE row says, interpreted on the operands of this call. -/
+theorem C09_type_independent_of_operand_form (T : Table) (r f : Row) (hf : f ∈ Spec.operandForms r) (hw : "word_view" ∉ r.sorts)
+    (hfind : T.find? f.key = some f) (src : Src) (ht : r.typ = some src) (fuel : Nat) (s : State) (args : List Val) :
+    typeOfMade T fuel s f args
+      = interp (read T (make T fuel s f.key args).1 fuel) (make T fuel s f.key args).2 "type" args src := by
+  obtain ⟨_, _, _, _, ht', _⟩ := Spec.operandForms_same r f hf hw
+  exact make_readback T fuel s f.key args f hfind "type" src (by rw [src_type, ht', ht])
+
+/-- In particular a type GIVEN to the factory is reported exactly, whatever the form of the other operands … -/
+theorem C09_given_whatever_the_operands (T : Table) (r f : Row) (hf : f ∈ Spec.operandForms r) (hw : "word_view" ∉ r.sorts)
+    (hfind : T.find? f.key = some f) (i : Nat) (ht : r.typ = some (.arg i)) (fuel : Nat) (s : State) (args : List Val) :
+    typeOfMade T fuel s f args = args.getD i .error := by
+  rw [C09_type_independent_of_operand_form T r f hf hw hfind (.arg i) ht]; rfl
+
+/-- … and a borrowed type is the type of the designated operand, also when that operand was built by the same factory. -/
+theorem C09_borrowed_whatever_the_operands (T : Table) (r f : Row) (hf : f ∈ Spec.operandForms r) (hw : "word_view" ∉ r.sorts)
+    (hfind : T.find? f.key = some f) (i : Nat) (ht : r.typ = some (.via i .h_type)) (fuel : Nat) (s : State) (args : List Val)
+    (j : Nat) (hj : args.getD i .error = .node j) :
+    typeOfMade T fuel s f args = read T (make T fuel s f.key args).1 fuel j "type" := by
+  rw [C09_type_independent_of_operand_form T r f hf hw hfind (.via i .h_type) ht]
+  simp only [interp, hj, Hop.name]
+
+/-- **A type assigned later is the type from then on** (`typing = t` on a node made without a type, or assigned again with another
+    value: the latest assignment wins), whatever the factory had recorded. -/
+theorem C09_typing_assigned_later (T : Table) (s : State) (id : Nat) (t₁ t₂ : Val) (fuel : Nat) (h : id < s.nodes.length) :
+    read T (Spec.setLink s id "type" t₁) (fuel + 1) id "type" = t₁ ∧
+    read T (Spec.setLink (Spec.setLink s id "type" t₁) id "type" t₂) (fuel + 1) id "type" = t₂ :=
+  ⟨Spec.read_setLink_self T s id "type" t₁ fuel h,
+   Spec.read_setLink_self T (Spec.setLink s id "type" t₁) id "type" t₂ fuel (by simpa [Spec.setLink] using h)⟩
 
 /-! ## Typed sequences -/
 
